@@ -33,6 +33,15 @@ for f in sorted(glob.glob(os.path.join(V, "seeded", "*", "meta.json"))):
         name, m.get("breaks_property"), summ, need, status, (" — " + by) if by else "", "quick",
         "yes" if demo.get("confirmed") else "see meta.json"))
 
+n_first = sum(1 for r in rows if "| caught (exit 1)" in r)
+n_later = sum(1 for r in rows if "missed at first" in r)
+n_open = len(rows) - n_first - n_later
+summary = ("**Summary.** %d seeded changes (two rounds, `<id>` = round 1, `<id>-r2` = round 2, each round one per property, "
+           "round 2 asked for a different mechanism / trigger kind than round 1): %d were caught by the registered quick check as "
+           "it stood; %d were missed at first (exit 0, or exit 2 where a divergence from the specification was seen but no statement-level "
+           "oracle fired) and are caught now after the check was strengthened; %d are not caught. No seeded change is used as a "
+           "special case anywhere: every strengthening widened the specification's state/action space or the driver's input/history "
+           "space and the same oracles decide.\n\n" % (len(rows), n_first, n_later, n_open))
 text = open(os.path.join(V, "DESIGN.md")).read()
 head = "### 17.2 Independently seeded changes"
 i = text.index(head)
@@ -47,7 +56,7 @@ Everything is kept under `seeded/<id>/` (patch.diff, demonstration, meta.json in
 VIOLATION lines). Where a change was missed at first, the responsible check was strengthened (see the per-property
 As-built blocks / notes) and the change re-run; the original outcome is kept in `meta.json` under `history`.
 
-| id | property | change — what it needs to manifest | outcome — first violation reported | tier | demonstration |
+""" + summary + """| id | property | change — what it needs to manifest | outcome — first violation reported | tier | demonstration |
 |---|---|---|---|---|---|
 """ + "\n".join(rows) + "\n"
 open(os.path.join(V, "DESIGN.md"), "w").write(text[:i] + new)
